@@ -205,6 +205,24 @@ def exact_boundary(case):
                 l, L = [float(x) for x in tot], [0.] * 5
     return False
 
+def substitute(rng, cur):
+    """the LLE chemicals present are replaced, flow for flow in index order, by another set of LLE chemicals of the same
+    size: the normalised composition vector is numerically identical but refers to other chemicals.  None if impossible."""
+    old = [i for i in LLE_INDEX if cur[i] != 0]
+    if not 0 < len(old) < len(LLE_INDEX):
+        return None
+    choices = []
+    for _ in range(6):
+        new = sorted(rng.sample(LLE_INDEX, len(old)))
+        if new != old: choices.append(new)
+    if not choices:
+        return None
+    new = choices[0]
+    out = list(cur)
+    for i in old: out[i] = 0.
+    for i, j in zip(old, new): out[j] = cur[i]
+    return out
+
 def gen_lle_case(rng):
     present = sorted(rng.sample(range(5), rng.choice([2, 3, 3, 4, 5])))
     if rng.random() < 0.06:
@@ -230,6 +248,10 @@ def gen_lle_case(rng):
         # how the next call differs from the previous one
         if r < 0.12:
             pass                                            # identical feed and T
+        elif r < 0.17 and substitute(rng, cur) is not None:  # other chemicals, numerically the same composition vector
+            cur = substitute(rng, cur)
+            nl, nL = split_rows(rng, cur)
+            case['ops'].append(['set', nl, nL])
         elif r < 0.2:                                       # back to an earlier (T, feed) of this history
             T, cur = rng.choice(visited); cur = list(cur)
             nl, nL = split_rows(rng, cur)
@@ -277,7 +299,9 @@ def gen_lle_revisit_case(rng):
     case['ops'].append(first)
     for _ in range(rng.choice([1, 1, 2])):
         T2, f2 = T1, list(f1)
-        how = rng.choice(['T', 'T', 'z', 'both'])
+        how = rng.choice(['T', 'T', 'z', 'both', 'chems'])
+        if how == 'chems' and substitute(rng, f2) is not None:
+            f2 = substitute(rng, f2)
         if how in ('T', 'both'):
             T2 = T1 + rng.choice([-25., 25., 40., -10., 1., -1., 0.25, -0.25])
         if how in ('z', 'both'):
@@ -292,6 +316,8 @@ def gen_lle_revisit_case(rng):
         mid[1]['update'] = rng.random() < 0.4
         mid[1]['use_cache'] = rng.random() < 0.7
         case['ops'].append(mid)
+    if rng.random() < 0.25 and substitute(rng, f1) is not None:
+        f1 = substitute(rng, f1)                           # same T, same vector, other chemicals
     nl, nL = split_rows(rng, f1)
     case['ops'].append(['set', nl, nL])
     last = gen_call(rng, T1); last[1]['use_cache'] = True; last[1]['update'] = True
@@ -806,7 +832,7 @@ def real_history(case, use_cache, scale=1.0):
     for call in case['calls']:
         T, flows = call[0], call[1]
         update = call[2] if len(call) > 2 else True          # False: a K-value query (flows are not split)
-        s.imol['L'] = 0.
+        s.imol['L'] = 0.; s.imol['l'] = 0.
         for k, v in flows.items(): s.imol['l', k] = v * scale
         s.lle(T=T, top_chemical=case.get('top'), use_cache=use_cache, update=update)
     return s
@@ -964,6 +990,9 @@ def oracle_sle_stub(case):
                     m = sle_rules(tag, j, l, sd, nl, ns, x, basis)
                     if m: return m
                 else:
+                    if o['ret'][2] == 'AttributeError' and a['T'] is not None and a['H'] is None:
+                        return (f'sle-rules: {tag} raised AttributeError: the result depends on whether an earlier call was made '
+                                f'on this solver object')
                     # a call that raises may have written the solute entries, never anything else
                     for i in range(4):
                         if i != j and (nl[i] != l[i] or ns[i] != sd[i]):
@@ -996,7 +1025,8 @@ def oracle_lle_stub(case):
                 if not solved:
                     tT = F(1e-3) if tolT is None else F(tolT); tz = F(1e-5) if tolz is None else F(tolz)
                     if prev is None or prev[0] != idx:
-                        return 'cached partition coefficients reused for other chemicals'
+                        return (f'cache: partition coefficients remembered for chemicals {None if prev is None else [IDS[i] for i in prev[0]]} '
+                                f'were reused for chemicals {[IDS[i] for i in idx]} (T={a["T"]})')
                     if abs(F(a['T']) - prev[1]) >= tT:
                         return (f'cache: call at T={a["T"]} reused the partition coefficients remembered at T={float(prev[1])} '
                                 f'(tolerance {float(tT)})')
@@ -1067,6 +1097,14 @@ def search_cases(rng, tier):
         # solve, K-value query (update=False) or plain call elsewhere, then the first conditions again
         cases.append({'kind': 'real', 'chems': chems, 'method': 'differential evolution', 'top': rng.choice([None, chems[1]]),
                       'calls': [[T0, base], [T1, f1, rng.random() < 0.3], [T0, base]], 'scale': rng.choice([1e-3, 8., 1e3])})
+    # the contents of the stream are replaced, mole for mole, by other chemicals (same T, same composition vector)
+    subs = [(['Water', 'Octanol', 'Hexane'], {'Water': 50., 'Octanol': 50.}, {'Water': 50., 'Hexane': 50.}),
+            (['Water', 'Ethanol', 'Octanol', 'Hexane'], {'Water': 60., 'Ethanol': 10., 'Octanol': 30.}, {'Water': 60., 'Ethanol': 10., 'Hexane': 30.}),
+            (['Water', 'Butanol', 'EthylAcetate'], {'Water': 40., 'Butanol': 20.}, {'Water': 40., 'EthylAcetate': 20.})]
+    for chems, fa, fb in (subs if tier != 'quick' else [rng.choice(subs), rng.choice(subs)]):
+        T0 = rng.choice([298.15, 310., 330.])
+        cases.append({'kind': 'real', 'chems': chems, 'method': 'differential evolution', 'top': None,
+                      'calls': [[T0, fa], [T0, fb]], 'scale': 8., 'check_activity': True})
     cases.append({'kind': 'sle_hist_real', 'chems': ['Water', 'Tetradecanol', 'Octanol'],
                   'steps': [{'l': {'Tetradecanol': 5.}, 's': {}, 'solute': 'Tetradecanol', 'T': 300.},
                             {'l': {'Water': 10., 'Octanol': 2., 'Tetradecanol': 5.}, 's': {}, 'solute': 'Tetradecanol', 'T': 305.}]})
@@ -1074,6 +1112,9 @@ def search_cases(rng, tier):
     feeds = [{'Methanol': 10., 'Tetradecanol': 30.}, {'Methanol': 2., 'Octanol': 1., 'Tetradecanol': 25.},
              {'Methanol': 40., 'Octanol': 5., 'Water': 1., 'Tetradecanol': 4.}]
     for feed in feeds:
+        for x in (0.05, 0.5, 0.9):                        # given solubility as the very first call on the stream
+            cases.append({'kind': 'sle_hist_real', 'chems': sle_chems,
+                          'steps': [{'l': feed, 's': {}, 'solute': 'Tetradecanol', 'T': 300., 'sol': x}]})
         for T1 in (255., 450., 290.):                     # earlier call: mostly solid / all liquid / partly solid on entry
             for x in (0.0, 0.05, 0.3, 0.6, 0.8, 0.9, 0.95, 0.99, 1.0):
                 cases.append({'kind': 'sle_hist_real', 'chems': sle_chems,
